@@ -134,3 +134,98 @@ package fasthttp
 //@     effect closed = closed + 1
 //@   end
 //@   ensures[at-most-once] released + closed <= 1
+
+// C18: the HostClient pool lock. connsCount, conns, connsWait and connsCleanerRun are only assigned with connsLock
+// held, and whenever the lock is free connsCount is within MaxConns (DefaultMaxConnsPerHost when MaxConns <= 0).
+// The methods that use the lock are enumerated from the source on each run.
+//@ monitor HostClient connsLock
+//@   property C18
+//@   protects connsCount conns connsWait connsCleanerRun
+//@   stable MaxConns
+//@   skip SetMaxConns: the only writer of MaxConns; lowering the limit below the current count is allowed and leaves the pool over the new limit until connections close
+//@   inv[within-max-conns] M.connsCount <= (M.MaxConns <= 0 ? DefaultMaxConnsPerHost : M.MaxConns)
+
+// Helpers called inside the critical sections: they touch only the queue / the waiter they are called on.
+//@ func wantConnQueue.len
+//@   trusted
+//@   pure
+//@ func wantConnQueue.popFront
+//@   trusted
+//@   modifies q
+//@ func wantConnQueue.pushBack
+//@   trusted
+//@   modifies q
+//@ func wantConnQueue.peekFront
+//@   trusted
+//@   pure
+//@ func wantConnQueue.clearFront
+//@   trusted
+//@   modifies q
+//@ func wantConn.waiting
+//@   trusted
+//@   pure
+//@ func wantConn.tryDeliver
+//@   trusted
+//@   modifies w
+//@ func AcquireTimer
+//@   trusted
+//@   pure
+//@ func ReleaseTimer
+//@   trusted
+//@   pure
+//@ func acquireClientConn
+//@   trusted
+//@   pure
+
+// The two critical sections with a loop over the waiter queue: the bound (and the lock) are kept through the loop.
+//@ func HostClient.decConnsCount
+//@   property C18
+//@   mode skeleton
+//@   nooverflow
+//@   stable c.MaxConns c.MaxConnWaitTimeout
+//@   ghost delta_connsCount int = 0
+//@   ghost redial int = 0
+//@   on go HostClient.dialConnFor:
+//@     nohavoc
+//@     effect redial = redial + 1
+//@   end
+//@   loop 1:
+//@     invariant[bound-kept] c.connsCount <= (c.MaxConns <= 0 ? DefaultMaxConnsPerHost : c.MaxConns)
+//@     invariant[no-redial-yet] redial == 0 && !dialed
+//@     invariant[count-untouched] c.connsCount == lock0_connsCount
+//@   ensures[slot-released-or-reused] (redial == 1 && delta_connsCount == 0) || (redial == 0 && delta_connsCount == -1)
+//@   ensures[at-most-one-redial] redial <= 1
+
+//@ func HostClient.ReleaseConn
+//@   property C18
+//@   mode skeleton
+//@   nooverflow
+//@   stable c.MaxConns c.MaxConnWaitTimeout
+//@   ghost delta_connsCount int = 0
+//@   loop 1:
+//@     invariant[bound-kept] c.connsCount <= (c.MaxConns <= 0 ? DefaultMaxConnsPerHost : c.MaxConns)
+//@     invariant[count-untouched] c.connsCount == lock0_connsCount
+//@   ensures[count-unchanged] delta_connsCount == 0
+
+// AcquireConn: a connection slot is taken (connsCount + 1 under the lock) exactly when this call decides to dial, a
+// dial is attempted only with a slot, and a failed dial gives the slot back.
+//@ func HostClient.AcquireConn results cc err
+//@   property C18
+//@   mode skeleton
+//@   nooverflow
+//@   stable c.MaxConns c.MaxConnWaitTimeout
+//@   ghost delta_connsCount int = 0
+//@   ghost dialed bool = false
+//@   ghost gaveBack bool = false
+//@   on call HostClient.dialHostHard -> conn, e:
+//@     requires[dial-only-with-a-slot] createConn && delta_connsCount == 1
+//@     effect dialed = true
+//@   on call HostClient.decConnsCount:
+//@     requires[gives-back-own-slot] createConn
+//@     effect gaveBack = true
+//@   on call HostClient.queueForIdle:
+//@     requires[waits-only-without-slot] !createConn
+//@   end
+//@   ensures[slot-iff-dial-decided] delta_connsCount == (createConn ? 1 : 0)
+//@   ensures[failed-dial-returns-slot] dialed && err != nil ==> gaveBack
+//@   ensures[error-keeps-no-slot] err != nil && createConn ==> gaveBack
